@@ -50,6 +50,11 @@ class SimSubprocess(object):
     def Popen(self, args, stdin=None, stdout=None, stderr=None, **kw):
         return _Proc(self, args)
 
+    class TimeoutExpired(Exception):
+        def __init__(self, cmd, timeout):
+            Exception.__init__(self, cmd, timeout)
+            self.cmd, self.timeout = cmd, timeout
+
 
 class _Proc(object):
     def __init__(self, sp, args):
@@ -57,6 +62,31 @@ class _Proc(object):
         self.args = list(args)
         self.returncode = None
         self.pid = 4242
+        self.stubborn = False      # a hanging process that ignores SIGTERM
+
+    # (not used by the pinned code: a relay that cleans up after a timeout
+    # would call these; a stubborn process only goes away on kill())
+    def terminate(self):
+        self.sp.world.log('PROC', 'terminate')
+        if not self.stubborn and self.returncode is None:
+            self.returncode = -15
+
+    def kill(self):
+        self.sp.world.log('PROC', 'kill')
+        if self.returncode is None:
+            self.returncode = -9
+
+    def poll(self):
+        return self.returncode
+
+    def wait(self, timeout=None):
+        t = 0.0
+        while self.returncode is None:
+            if timeout is not None and t >= timeout:
+                raise self.sp.TimeoutExpired(self.args, timeout)
+            gevent.sleep(0.05)
+            t += 0.05
+        return self.returncode
 
     def communicate(self, stdin=None):
         sp = self.sp
@@ -78,6 +108,8 @@ class _Proc(object):
         w.log('POPEN', k, spec.get('rc', 0))
         if spec.get('hang'):
             w.fault('subprocess-hang')
+            # every other hanging process also ignores SIGTERM
+            self.stubborn = len(sp.calls) % 2 == 0
             gevent.sleep(10 ** 7)
         lat = spec.get('lat', 0.0)
         if lat:
@@ -260,6 +292,18 @@ class HttpResponder(object):
                     w.sched_seed, 'httpbodylate', conn_n, k) % 2 == 0)
                 if not late:
                     data += body
+                if act == 'trickle':
+                    # a header line that never ends, one byte at a time
+                    w.fault('peer-trickle')
+                    c.stalled_at = ('response', w.loop._now)
+                    slow = data[:-4] + b'X-Slow: ' + b'z' * 400
+                    try:
+                        for i in range(len(slow)):
+                            sock.sendall(slow[i:i + 1])
+                            gevent.sleep(spec.get('gap', 1.0))
+                    except OSError:
+                        pass
+                    return
                 if act == 'partial':
                     w.fault('peer-partial-reply')
                     c.stalled_at = ('response', w.loop._now)
